@@ -176,6 +176,9 @@ def data_of(d):
         x = rs.standard_t(3, size=n)
     elif kind == 'ints':
         x = rs.randint(0, d.get('k', 4), size=n).astype(float)
+    elif kind == 'rounded':          # heavy ties: a continuous law rounded to a grid (counts, prices, rounded measurements)
+        x = np.round(rs.gamma(d.get('a', 2.0), d.get('scale', 2.0), size=n) if d.get('law', 'gamma') == 'gamma'
+                     else rs.normal(d.get('loc', 5.0), d.get('scale', 2.0), n), d.get('decimals', 0))
     elif kind == 'const':
         x = np.full(n, d.get('c', 3.0))
     elif kind == 'bimodal':
@@ -1321,6 +1324,12 @@ def witness(ctx, rng, quick):
     datas[0] = {'kind': 'gamma', 'seed': 11, 'n': 70}
     sets.append([['cls', n] for n in REAL])
     datas.append({'kind': 'const', 'seed': 0, 'n': 12, 'c': -1.0})
+    # tied data (the KS statistic of a sample with ties: D- uses the count of values strictly below, not rank - 1)
+    for sd, law, dec, n_ in ((3, 'gamma', 0, 60), (4, 'normal', 0, 80), (5, 'gamma', 0, 200), (6, 'normal', 1, 40), (7, 'gamma', 0, 35)):
+        sets.append([['cls', n] for n in REAL])
+        datas.append({'kind': 'rounded', 'seed': sd, 'n': n_, 'law': law, 'decimals': dec})
+    sets.append([['cls', n] for n in REAL])
+    datas.append({'kind': 'ints', 'seed': 8, 'n': 50, 'k': 6})
     sets.append([['cls', 'BetaUnivariate'], ['stub', {'id': 'w', 'fit': 'ValueError'}]])
     datas.append({'values': [0.5, None, 1.0, 0.25]})
     for c, d in zip(sets, datas):
@@ -1405,11 +1414,18 @@ def run(ctx):
              'unresolvable names; oracles instantiable/fit_dist computed independently; compared with vm_compute of run_columns (= gen_fit_columns, C05_eval_columns): '
              'success/raise, column order, class per column, fallback used, parameters equal to an independent fit on the same column, fresh instance')
     rng = np.random.default_rng(ctx.seed + 5)
-    corr_select(ctx, rng, 40 if quick else 600, 10 if quick else 80, model_ok)
-    corr_fit(ctx, rng, 30 if quick else 400, 6 if quick else 60, model_ok)
-    corr_candidates(ctx, rng, 30 if quick else 400, model_ok, ct)
-    corr_columns(ctx, rng, 22 if quick else 200, model_ok)
-    ctx.extra['witness_search_hits'] = witness(ctx, rng, quick)
+    # each correspondence phase instruments the library (selection.get_instance / selection.kstest ...); a source that no longer has the
+    # instrumented names makes the phase impossible, which is a failed obligation of that phase - never a reason to skip the witness search
+    import traceback
+    for phase, fn, args in (('select', corr_select, (40 if quick else 600, 10 if quick else 80, model_ok)),
+                            ('fit', corr_fit, (30 if quick else 400, 6 if quick else 60, model_ok)),
+                            ('candidates', corr_candidates, (30 if quick else 400, model_ok, ct)),
+                            ('columns', corr_columns, (22 if quick else 200, model_ok))):
+        try:
+            fn(ctx, rng, *args)
+        except Exception:
+            ctx.obligation(f'corr:{phase}:instrumentation', False, 'correspondence', traceback.format_exc()[-800:])
+    ctx.extra['witness_search_hits'] = witness(ctx, np.random.default_rng(ctx.seed + 55), quick)
     ctx.extra['quirks'] = [
         'D1 (not a violation of C05: no candidate can be fitted, so there is nothing to select; stated as C05_all_fail / C05_fit_all_fail): '
         'select_univariate returns None when every candidate fails and Univariate.fit raises AttributeError("NoneType object has no attribute fit")',
